@@ -312,8 +312,10 @@ def validate_scalar(value: Any, dtype: DataType) -> Any:
         return datetime.combine(value, datetime.min.time())
 
     # Otherwise incompatible
+    # (the value is named by its type: its own repr may fail - an int beyond the int-to-str
+    # digit limit, a raising __repr__ - and that failure would replace the refusal)
     raise TypeError(
-        f"Incompatible value {value!r} for column<{dtype.kind.__name__}>"
+        f"Incompatible {vtype.__name__} value for column<{dtype.kind.__name__}>"
     )
 
 
